@@ -230,4 +230,101 @@ theorem scanNumber_le (hd : Char) (st : St) : (scanNumber hd st).2.2.2.le st := 
   · exact h
   · split <;> exact h
 
+/-- a branch of `Scan()` ends in a state reached by moving forward, and stamps the token with the given position -/
+def StepOK (st : St) (line col : Nat) : Step → Prop
+  | .tok t _ st' _ => st'.le st ∧ t.line = line ∧ t.col = col
+  | .comment st' => st'.le st
+
+theorem stepNamedPlaceholder_ok (cls : Classes) (ch : Char) (st : St) (h : Holders) (line col : Nat) :
+    StepOK st line col (stepNamedPlaceholder cls ch st h line col) := by
+  unfold stepNamedPlaceholder
+  simp only [StepOK, and_self, and_true]
+  exact scanIdentifier_le cls ch st
+
+theorem stepNumber_ok (ch : Char) (st : St) (h : Holders) (line col : Nat) :
+    StepOK st line col (stepNumber ch st h line col) := by
+  unfold stepNumber
+  simp only [StepOK, and_self, and_true]
+  exact scanNumber_le ch st
+
+theorem stepOperator_ok (ch : Char) (st : St) (h : Holders) (line col : Nat) :
+    StepOK st line col (stepOperator ch st h line col) := by
+  unfold stepOperator
+  simp only [StepOK, and_self, and_true]
+  exact scanOperator_le ch st
+
+theorem stepExternal_ok (st : St) (h : Holders) (line col : Nat) :
+    StepOK st line col (stepExternal st h line col) := by
+  unfold stepExternal
+  simp only [StepOK, and_self, and_true]
+  exact extCommand_le _ st
+
+theorem stepString_ok (ch : Char) (st : St) (h : Holders) (line col : Nat) :
+    StepOK st line col (stepString ch st h line col) := by
+  unfold stepString
+  simp only [StepOK, and_self, and_true]
+  exact scanString_le ch st
+
+theorem stepQuotedIdent_ok (ch : Char) (st : St) (h : Holders) (line col : Nat) :
+    StepOK st line col (stepQuotedIdent ch st h line col) := by
+  unfold stepQuotedIdent
+  simp only [StepOK, and_self, and_true]
+  exact scanString_le ch st
+
+theorem stepWord_ok (cls : Classes) (ch : Char) (st : St) (h : Holders) (line col : Nat) :
+    StepOK st line col (stepWord cls ch st h line col) := by
+  unfold stepWord
+  have h1 := scanIdentifier_le cls ch st
+  simp only []
+  split
+  · simp only [StepOK, and_self, and_true]; exact h1
+  · split
+    · split
+      · split
+        · simp only [StepOK, and_self, and_true]
+          exact St.le_trans (next_le _) (St.le_trans (next_le _) h1)
+        · split
+          · simp only [StepOK, and_self, and_true]
+            exact St.le_trans (whileNext_le _ _ _) (St.le_trans (next_le _) (St.le_trans (next_le _) h1))
+          · simp only [StepOK, and_self, and_true]
+            exact St.le_trans (next_le _) (St.le_trans (next_le _) h1)
+      · simp only [StepOK, and_self, and_true]
+        exact St.le_trans (scanUrl_le _) (St.le_trans (next_le _) h1)
+    · simp only [StepOK, and_self, and_true]; exact h1
+
+theorem stepVariable_ok (cls : Classes) (st : St) (h : Holders) (line col : Nat) :
+    StepOK st line col (stepVariable cls st h line col) := by
+  unfold stepVariable
+  -- the state after the optional second sign rune
+  generalize hx : (match peek st with
+    | some c =>
+      if c = '%' then (Kind.envVar, (next st).2)
+      else if c = '#' then (Kind.runtimeInfo, (next st).2)
+      else if c = '@' then (Kind.flag, (next st).2)
+      else (Kind.variable, st)
+    | none => (Kind.variable, st) : Kind × St) = x
+  have hx1 : x.2.le st := by
+    subst hx
+    split
+    · split
+      · exact next_le st
+      · split
+        · exact next_le st
+        · split
+          · exact next_le st
+          · exact St.le_refl _
+    · exact St.le_refl _
+  obtain ⟨kind, st1⟩ := x
+  simp only [] at hx1 ⊢
+  split
+  · simp only [StepOK, and_self, and_true]
+    exact St.le_trans (scanString_le _ _) (St.le_trans (next_le _) hx1)
+  · split
+    · split
+      · rename_i hd st2 heq
+        simp only [StepOK, and_self, and_true]
+        exact St.le_trans (scanIdentifier_le _ _ _) (St.le_trans (next_le' heq) hx1)
+      · simp only [StepOK, and_self, and_true]; exact hx1
+    · simp only [StepOK, and_self, and_true]; exact hx1
+
 end Csvq.Scan
